@@ -16,7 +16,7 @@ func init() {
 	register(&Check{
 		ID:    "C06",
 		Level: "model_checking",
-		Rule: "explicit enumeration of the file-system state transition of RunFiles: 14 commands (replacement longer / equal / shorter / empty, zero matches, match at offset 0 and at the end, adjacent matches covering the file, skip/take/last windows, anchors, find) x every file content over {a,b,\\n} up to length 4 plus 4095/4096/4097/8193-byte files with the motif at the start, across the buffer boundary and at the end x mode {NOTHING, NEW, OVERWRITE} x pre-state {no .vored, stale longer .vored, stale shorter .vored} x {one file, two files}; " +
+		Rule: "explicit enumeration of the file-system state transition of RunFiles: 18 commands (replacement longer / equal / shorter / empty / absent for some or all matches / multi-byte UTF-8, zero matches, match at offset 0 and at the end, adjacent matches covering the file, skip/take/last windows, anchors, find) x every file content over {a,b,\\n} up to length 4 plus 4095/4096/4097/8193-byte files with the motif at the start, across the buffer boundary and at the end x mode {NOTHING, NEW, OVERWRITE} x pre-state {no .vored, stale longer .vored, stale shorter .vored} x {one file, two files}; " +
 			"state = complete directory snapshot (names and bytes); the post-state must equal the expected directory: NOTHING identical, NEW original untouched + <f>.vored == splice(input, matches, replacements) and nothing else, OVERWRITE <f> == splice and nothing else, find identical in every mode; splice is computed from Run(string); states = distinct (pre,post) directory snapshots, transitions = RunFiles calls",
 		Assume: []string{"the operating system performs the writes; no crash points are explored (no property asks for it)"},
 		Budget: map[string]int{"quick": 150, "thorough": 1200},
@@ -34,6 +34,10 @@ var c06Commands = []string{
 	"replace all 'a' with 'xyz'", "replace all 'a' with 'z'", "replace all 'ab' with 'z'", "replace all 'a' with ''", "replace all 'zz' with 'q'",
 	"replace all any with value value", "replace skip 1 take 1 'a' with 'XY'", "replace last 1 'b' with ''", "replace all line start 'a' with 'B'",
 	"replace all 'b' file end with 'END'", "replace all file start any with ''", "replace all at least 1 'a' with matchNumber '-'", "find all 'a'", "find all any",
+	// matches whose replacer yields no text at all (a capture of the other alternative, an undefined name): the span is removed
+	"replace all 'a' or ('b' = d) with d", "replace all 'a' with nope",
+	// replacement text longer in bytes than in characters
+	"replace all 'a' with '\xc3\xa9'", "replace all ('b' = x) with x '\xe2\x82\xac' x",
 }
 
 func snapshotDir(dir string) map[string]string {
